@@ -47,7 +47,7 @@ func ruleNameGuards(c *eng.Ctx) {
 			cv := call.(*ssa.Call)
 			fromBase := false
 			for _, a := range joinArgs(cv) {
-				if originatesFromCall(c, a, "path/filepath.Base") != nil {
+				if b, _ := baseCallOf(c, a); b != nil {
 					fromBase = true
 				}
 			}
@@ -73,10 +73,10 @@ func ruleNameGuards(c *eng.Ctx) {
 			if op != token.EQL && op != token.NEQ {
 				return false, false
 			}
-			if originatesFromCall(c, x, "path/filepath.Base") == nil {
+			if b, _ := baseCallOf(c, x); b == nil {
 				x, y = y, x
 			}
-			if originatesFromCall(c, x, "path/filepath.Base") == nil || nameF == nil || !eng.LoadsField(y, nameF) {
+			if b, _ := baseCallOf(c, x); b == nil || nameF == nil || !eng.LoadsField(y, nameF) {
 				return false, false
 			}
 			return true, op == token.EQL
@@ -122,12 +122,11 @@ func ruleNameGuards(c *eng.Ctx) {
 		}
 		// the name that is sanitised is rooted first (Join with the separator)
 		okRooted := false
-		for _, b := range c.P.CallsTo(fn, "path/filepath.Base") {
-			if j := originatesFromCall(c, eng.Arg(b, 0), "path/filepath.Join"); j != nil {
-				for _, a := range joinArgs(j) {
-					if nameF != nil && eng.LoadsField(a, nameF) {
-						okRooted = true
-					}
+		isName := func(v ssa.Value) bool { return nameF != nil && eng.LoadsField(v, nameF) }
+		for _, nt := range nodeTargets {
+			for _, a := range joinArgs(nt) {
+				if b, h := baseCallOf(c, a); b != nil && baseOfRootedName(c, b, h, isName) {
+					okRooted = true
 				}
 			}
 		}
